@@ -465,8 +465,7 @@ theorem kwTail (p : Nat → Bool) : (ks : List Keyword) → GoodKws p ks → ∀
       refine ⟨n1 + n2 + 1, fun fuel hf => ?_⟩
       obtain ⟨f, rfl⟩ : ∃ f, fuel = f + 1 := ⟨fuel - 1, by omega⟩
       rw [toks_kws_dstar]
-      simp only [Bool.false_eq_true, if_false, List.singleton_append, List.cons_append, List.append_assoc, argsTail,
-        List.nil_append]
+      simp only [Bool.false_eq_true, if_false, List.cons_append, List.append_assoc, argsTail, List.nil_append]
       rw [parseArgs_step _ _ _ _ _ (by intro r h; cases h), hcr, hn1 f (by omega)]
       simp only
       have := hn2 f (by omega)
@@ -483,8 +482,7 @@ theorem kwTail (p : Nat → Bool) : (ks : List Keyword) → GoodKws p ks → ∀
       refine ⟨n1 + n2 + 1, fun fuel hf => ?_⟩
       obtain ⟨f, rfl⟩ : ∃ f, fuel = f + 1 := ⟨fuel - 1, by omega⟩
       rw [toks_kws_named]
-      simp only [Bool.false_eq_true, if_false, List.singleton_append, List.cons_append, List.append_assoc, argsTail,
-        List.nil_append]
+      simp only [Bool.false_eq_true, if_false, List.cons_append, List.append_assoc, argsTail, List.nil_append]
       rw [parseArgs_step _ _ _ _ _ (by intro r h; cases h), hcr, hn1 f (by omega)]
       simp only
       have := hn2 f (by omega)
@@ -856,6 +854,7 @@ theorem subOK_of_elem (p : Nat → Bool) {s : Expr} (h : SubElemOK p s) (h01 : u
   obtain ⟨f, rfl⟩ : ∃ f, fuel = f + 1 := ⟨fuel - 1, by omega⟩
   rw [h01, parseSubscriptList, hn f (by omega)]
 
+/-- NOTE (`x[*a]`): holds for the parser as it is (`x[*a]` is `Subscript(x, Starred a)`); see the note at `fx`. -/
 theorem subOK_starred (p : Nat → Bool) {v : Expr} (h : GoodP p v) : SubOK p (.starred v) :=
   subOK_of_elem p (SubElemOK.star h) (by simp [unparse])
 
